@@ -655,7 +655,10 @@ Qed.
 
 Definition y_find (c : ctx) (rpath ip : path) : found :=
   if is_rel ip then Found (y_rel_dir (c_entry c) rpath ip) (y_rel_rpath rpath)
-  else y_pkg_dir (tree_stat (c_tree c)) (c_gsrc c) (S (length rpath)) rpath ip.
+  else match y_pkg_dir (tree_stat (c_tree c)) (c_gsrc c) (S (length rpath)) rpath ip with
+       | NotFound => y_pkg_dir (tree_stat (c_tree c)) (c_gsrc c) (S (length (c_retry c))) (c_retry c) ip
+       | r => r
+       end.
 
 Definition y_mark (s : ystate) (ip : path) : ystate :=
   {| y_memo := y_memo s; y_rdir := ip :: y_rdir s; y_log := y_log s |}.
@@ -811,7 +814,12 @@ Proof.
 Qed.
 
 Lemma y_find_fuel c rpath ip : y_find c rpath ip <> OutOfFuel.
-Proof. unfold y_find. destruct (is_rel ip); [discriminate|]. apply pkg_dir_fuel. lia. Qed.
+Proof.
+  unfold y_find. destruct (is_rel ip); [discriminate|].
+  pose proof (pkg_dir_fuel (tree_stat (c_tree c)) (c_gsrc c) ip (S (length rpath)) rpath ltac:(lia)) as H1.
+  destruct (y_pkg_dir _ _ (S (length rpath)) rpath ip); [discriminate| |congruence].
+  apply pkg_dir_fuel. lia.
+Qed.
 
 Section Termination.
   Variable c : ctx.
@@ -1203,3 +1211,40 @@ Lemma relative_cycle_reported :
   snd (y_run_file (mkctx "gp/src" "work" t_rel_cycle)) = Some ECycle
   /\ snd (g_run_file (mkctx "gp/src" "work" t_rel_cycle)) = Some ECycle.
 Proof. split; vm_compute; reflexivity. Qed.
+
+(* ------------------------------------------------------------------ *)
+(** * The second attempt of importSrc (rootFromSourceLocation) *)
+
+Local Close Scope string_scope.
+Local Open Scope list_scope.
+
+(** a failed walk ended at GOPATH/src: neither GOPATH/src/vendor/<path> nor GOPATH/src/<path> exists *)
+Lemma pkg_dir_notfound_top st gsrc ip : forall fuel root,
+  y_pkg_dir st gsrc fuel root ip = NotFound ->
+  st (gsrc ++ ([] ++ [vendor]) ++ ip) = false /\ st (gsrc ++ y_effective_pkg [] ip) = false.
+Proof.
+  induction fuel as [|f IH]; intros root H; [discriminate|]. cbn [y_pkg_dir] in H.
+  destruct (st (gsrc ++ (root ++ [vendor]) ++ ip)) eqn:E1; [discriminate|].
+  destruct (st (gsrc ++ y_effective_pkg root ip)) eqn:E2; [discriminate|].
+  destruct root as [|x r]; [now split|]. eapply IH; exact H.
+Qed.
+
+(** with the retry root "" (input "_.go", or an input file outside GOPATH) the second attempt
+    cannot succeed where the first one failed *)
+Lemma retry_nil_noop st gsrc ip fuel root :
+  y_pkg_dir st gsrc fuel root ip = NotFound -> y_pkg_dir st gsrc 1 [] ip = NotFound.
+Proof.
+  intros H. apply pkg_dir_notfound_top in H as [H1 H2]. cbn [y_pkg_dir]. now rewrite H1, H2.
+Qed.
+
+(** a package in directory [proj ++ rel] whose first attempt failed is served by the second attempt
+    started at [proj] (the input file's directory): this is what Go prescribes for the importing
+    directory as long as no vendor directory between [proj] and the package holds the path *)
+Theorem retry_resolve st hasgo gsrc proj rel ip :
+  fs_closed st -> fs_hasgo_dir st hasgo -> resolve_side st hasgo gsrc proj ip = true ->
+  (forall e1 e2, rel = e1 ++ e2 -> e1 <> [] -> hasgo (gsrc ++ (proj ++ e1) ++ vendor :: ip) = false) ->
+  y_resolve st gsrc proj ip = g_resolve st hasgo gsrc (proj ++ rel) ip.
+Proof.
+  intros Hc Hg Hs Hrel. rewrite (resolve_agree st hasgo gsrc proj ip Hc Hg Hs).
+  unfold g_resolve. now rewrite g_walk_skip.
+Qed.
